@@ -203,6 +203,7 @@ func runE3(prop, tier string, seed uint64) int {
 	var lines []string
 	nviol := 0
 	exit := 0
+	var unreproduced []string
 	shrinkBudget := 20 * time.Second
 	if tier == "thorough" {
 		shrinkBudget = 60 * time.Second
@@ -227,7 +228,10 @@ func runE3(prop, tier string, seed uint64) int {
 			o1 = e3.RunPlan(cli, root, fresh, f.plan)
 		}
 		if o1.V == nil || o1.V.Class != f.v.Class || o1.V.Sub != f.v.Sub {
-			return trouble("violation %s of history %d did not reproduce in 8 runs on a fresh directory - nondeterminism outside the simulator's control, refusing to report", sig, f.idx)
+			// not reported: without a history that shows it again there is nothing to replay. If another signature of this batch
+			// does recur, that one is reported; if none does, the check ends with exit 2 (below)
+			unreproduced = append(unreproduced, fmt.Sprintf("%s (history %d)", sig, f.idx))
+			continue
 		}
 		confirmNote := "confirmed on a fresh directory"
 		if attempts > 1 {
@@ -289,6 +293,12 @@ func runE3(prop, tier string, seed uint64) int {
 	for _, l := range lines {
 		fmt.Println(l)
 	}
+	for _, u := range unreproduced {
+		fmt.Printf("vcheck: seen once and not again in 8 runs of the same history on a fresh directory: %s\n", u)
+	}
+	if exit == 0 && len(unreproduced) > 0 {
+		return trouble("%d violation(s) were observed but none recurred when the history was run again (the tool is a real process; threads of its own are outside the simulator's control) - nothing replayable to report", len(unreproduced))
+	}
 	if exit == 0 {
 		if prop == "C19" {
 			// every fault kind must have been in scope together with a healthy annotated file, in -d and in -p mode
@@ -325,7 +335,7 @@ func faultProbeName(k string) string {
 		return e3.KText
 	case "dir", "dir-named-go":
 		return e3.KDir
-	case "dangling-symlink-go", "dangling-symlink", "symlink-to-dir-go", "symlink-to-go-file":
+	case "dangling-symlink-go", "dangling-symlink", "symlink-to-dir-go", "symlink-to-go-file", "symlink-aliases-x8":
 		return e3.KSymlink
 	}
 	return k
